@@ -407,6 +407,10 @@ func genC16(c *Ctx) {
 		}
 		ks := "0x" + key.k.Text(16)
 		c.Case("pop-gen/"+key.kind, "sig.expect "+ks+" "+hx(hpop), "ok "+hx(pop))
+		// and from the key alone: the model hashes the encoded public key under the PoP suite itself
+		if key.k.Sign() != 0 {
+			c.Case("pop-gen-from-key/"+key.kind, "pop.gen "+ks, "ok "+hx(pop))
+		}
 		// call history: the caller re-uses ONE buffer for every proof it checks (a result remembered per key or per
 		// slice must not survive the buffer being overwritten); for every other key this is the very first
 		// verification the key ever sees, for the others it comes after fresh-slice verifications
@@ -534,6 +538,12 @@ func genC17(c *Ctx) {
 		emit("malformed", k1, pk1, flipBit(p1, c.intn(384)), k2, pk2, p2)
 		emit("wrong-length", k1, pk1, p1[:47], k2, pk2, p2)
 		emit("wrong-length-2", k1, pk1, p1, k2, pk2, append(append([]byte{}, p2...), 0))
+		// both proofs of a wrong length with lengths that add up to 96 (a check on the combined length would pass)
+		both := append(append([]byte{}, p1...), p2...)
+		for _, cut := range []int{0, 1, 47, 49, 95, 96} {
+			emit("wrong-length-both", k1, pk1, both[:cut], k2, pk2, both[cut:])
+		}
+		emit("wrong-length-both", k1, pk1, nil, k2, pk2, both)
 		// identity keys
 		idk := pickIdentity(c, it)
 		zero := big.NewInt(0)
